@@ -54,6 +54,9 @@ func jsonMutations(doc []byte) [][2]string {
 		return string(b)
 	}
 	repl := []string{longStr("é", 150, 0), longStr("é", 150, 1), longStr("日", 100, 0), longStr("日", 100, 1), longStr("日", 100, 2), longStr("x", 5000, 0),
+		// values whose quotation in an error message crosses 1 KiB and 4 KiB at every rune alignment
+		longStr("é", 520, 0), longStr("é", 520, 1), longStr("日", 350, 0), longStr("日", 350, 1), longStr("日", 350, 2),
+		longStr("é", 2100, 0), longStr("é", 2100, 1), longStr("日", 1400, 0), longStr("日", 1400, 1), longStr("日", 1400, 2),
 		`null`, `true`, `0`, `-1`, `1e400`, `"x"`, `[]`, `{}`, strings.Repeat("[", 100) + strings.Repeat("]", 100), strings.Repeat(`{"a":`, 100) + `1` + strings.Repeat("}", 100), `"\ud800"`, "\"\xff\""}
 	var walk func(node any, rebuild func(sub string) string)
 	walk = func(node any, rebuild func(sub string) string) {
@@ -104,7 +107,7 @@ func jsonMutations(doc []byte) [][2]string {
 			// long member names in 1-, 2- and 3-byte runes around power-of-two sizes, with 0..3 bytes of ASCII padding
 			// (size- or truncation-sensitive error reporting)
 			for _, r := range []string{"k", "é", "日"} {
-				for _, n := range []int{64, 128, 150, 256, 300} {
+				for _, n := range []int{64, 128, 150, 256, 300, 342, 512, 700, 1100, 1400, 2100} {
 					for pad := 0; pad < 4; pad++ {
 						name := strings.Repeat("p", pad) + strings.Repeat(r, n)
 						kb, _ := json.Marshal("zzUnknownKey" + name)
